@@ -11,14 +11,16 @@ CONSTANTS
   CacheExp = 2
   TTLs = {1, 3}
   Caps = {1}
-  MaxTime = 7
-  MaxOps = 6
+  Ticks = {1, 2}
+  MaxTime = 5
+  MaxOps = 4
   WebCaseSensitive = FALSE
   WebSkipsSuffix = FALSE
   SharedKey = FALSE
   KeepOldLocal = FALSE
   NoLocalExpiry = FALSE
   NoNamespace = FALSE
+  SplitDNS = FALSE
   KeepHist = FALSE
 VIEW view
 INVARIANTS WebSeesOwnDNS WebOnlyCheckHosts FreshOnSameNode VisibleLocal VisibleStore GoneAfterExpiry StoreBounded
